@@ -618,6 +618,8 @@ def run(pid, tier, seed, extra=None):
     ]
     if extra:
         extra(ck, tier, seed)
+    from checks import manager_mc
+    manager_mc.run(ck, pid, tier, seed)
     run_e2e(ck, pid, tier, seed)
     if pid in ('C01', 'C02', 'C03', 'C05', 'C06'):
         from checks import legacy_e2e
